@@ -408,6 +408,48 @@ func runC09(r *mc.Run) {
 		})
 		r.SectionDone(mc.Section{Name: "size-field-walk/" + b.name, Evaluations: int64(done), Exhaustive: done == len(walk)})
 	}
+	// one field (and every pair of RTMRs) filled with zeros / 0xff while the others keep their pattern: a value that
+	// looks like "nothing there" still occupies its place
+	{
+		b := bases[0]
+		type zc struct {
+			id string
+			m  []byte
+		}
+		var zs []zc
+		for _, rg := range []struct {
+			name string
+			base int
+			fs   []world.Field
+		}{{"header", 0, world.HeaderFields}, {"td_body", 48, world.BodyFields}, {"qe_report", b.reg.QEReport[0], world.QEReportFields}} {
+			for _, f := range rg.fs {
+				for _, v := range []byte{0x00, 0xff} {
+					m := append([]byte(nil), b.raw...)
+					for k := 0; k < f.Len; k++ {
+						m[rg.base+f.Off+k] = v
+					}
+					zs = append(zs, zc{fmt.Sprintf("field-fill/%s/%s=%02x", rg.name, f.Name, v), m})
+				}
+			}
+		}
+		for mask := 1; mask < 16; mask++ {
+			m := append([]byte(nil), b.raw...)
+			for i := 0; i < 4; i++ {
+				if mask&(1<<uint(i)) != 0 {
+					for k := 0; k < 48; k++ {
+						m[48+328+48*i+k] = 0
+					}
+				}
+			}
+			zs = append(zs, zc{fmt.Sprintf("field-fill/rtmrs-zero-mask=%04b", mask), m})
+		}
+		done := r.Parallel(len(zs), func(i int) {
+			if r.Want(zs[i].id) {
+				c09JudgeRaw(r, rawCase{zs[i].id, zs[i].m}, "field-fill")
+			}
+		})
+		r.SectionDone(mc.Section{Name: "field-fills", Evaluations: int64(done), Exhaustive: done == len(zs)})
+	}
 	c09Retention(r, bases)
 	c09SharedBuffers(r, bases[0])
 	// (d) field identity: every single-bit mutant of a quote whose fields all differ.
